@@ -688,7 +688,18 @@ impl Runner {
                 (Ok((_, a)), Ok((_, b))) => {
                     let expect: Vec<Row> = self.st.rows.iter().filter(|r| p.eval(&self.st.cols, r) == Some(true)).cloned().collect();
                     if sorted(&a) != sorted(&b) {
-                        self.res.violate(prop, "O-index-diff", &format!("index-vs-scan:{}", kinds.join("+")), self.step, format!("filter `{}` kinds {:?}: with index {}", sql, kinds, diff_rows(&b, &a)));
+                        // classify: extra rows that are NULL in a predicate column under a negation
+                        let bs: BTreeSet<&Row> = b.iter().collect();
+                        let as_: BTreeSet<&Row> = a.iter().collect();
+                        let extra: Vec<&&Row> = as_.difference(&bs).collect();
+                        let missing = bs.difference(&as_).count();
+                        let mut pcols = BTreeSet::new();
+                        p.columns(&mut pcols);
+                        let pidx: Vec<usize> = pcols.iter().filter_map(|c| self.st.col(c)).collect();
+                        let neg = sql.contains("NOT (") || sql.contains("<>");
+                        let all_extra_null = !extra.is_empty() && extra.iter().all(|r| pidx.iter().any(|i| r[*i].is_null()));
+                        let class = if missing == 0 && neg && all_extra_null { "negation-keeps-null-rows" } else if missing > 0 { "drops-rows" } else { "extra-rows" };
+                        self.res.violate(prop, "O-index-diff", &format!("index-vs-scan:{}:{}", class, kinds.join("+")), self.step, format!("filter `{}` kinds {:?}: with index {}", sql, kinds, diff_rows(&b, &a)));
                     } else if sorted(&b) != sorted(&expect) {
                         self.res.violate("C16", "O-filter-model", "filter-vs-model", self.step, format!("filter `{}`: {}", sql, diff_rows(&expect, &b)));
                     }
